@@ -686,6 +686,25 @@ def gen_keepalive2(rng, knobs=None):
         elif r < 0.6 and blocked:
             prog.append(['gate_open', 'c'])
             blocked = False
+        elif r < 0.8 and not blocked and opts.get('frag'):
+            # a keep-alive tick / an echo is queued while a fragmented frame of the same endpoint is only partly written: every
+            # KEEPALIVE must still go out exactly once
+            ep = rng.choice(['c', 's'])
+            prog.append(['gate_close', ep])
+            if ep == 'c':
+                prog.append(['fnf', 'c', rng.choice([[300, 0], [500, 100], [0, 400]])])
+            else:
+                prog.append(['rr', 'c', spec(rng, big=False), {'mode': 'immediate', 'resp': rng.choice([[300, 0], [500, 100], [0, 400]])}])
+                prog.append(['pump'])
+            prog.append(['settle'])
+            prog.append(['gate', ep, rng.choice([1, 2, 3])])
+            prog.append(['advance', period + 1])            # the client's tick; the server's echo of it
+            prog.append(['pump'] if ep == 's' else ['settle'])
+            for _ in range(rng.randint(1, 4)):
+                prog.append(['gate', ep, 1])
+                prog.append(['settle'])
+            prog.append(['gate_open', ep])
+            prog.append(['pump'])
     prog.append(['pump'])
     prog.append(['snapshot', 'final'])
     return opts, prog
@@ -706,6 +725,8 @@ def gen_setup_client(rng, knobs=None):
         opts['md_mime'] = rng.choice(['message/x.rsocket.composite-metadata.v0', 'application/cbor', 'a/b'])
     if rng.random() < 0.3:
         opts['honor_lease_c'] = True
+    if rng.random() < 0.3:
+        opts['client_lease_publisher'] = True       # (independent of whether the client honours leases)
     prog = [['start_noconnect']]
     # requests issued concurrently with connect(): before it, and after 0..3 loop iterations of it
     steps = []
@@ -773,6 +794,8 @@ def gen_reconnect(rng, knobs=None):
         opts['reconnect_on_close'] = rounds
     elif who == 'on_timeout':
         opts['reconnect_on_timeout'] = rounds
+    if rng.random() < k.get('p_close_raises', 0.15):
+        opts['close_raises'] = True         # the old transport's close() raises (not an OSError): the reconnect must go on all the same
     if k.get('p_connect_fail') and rng.random() < k['p_connect_fail']:
         # the server is not reachable at the first (or the first two) attempt(s) to connect again; the application tries again from
         # on_connection_error (the retry idiom) - eventually a connection is made and requests are served
@@ -978,7 +1001,8 @@ def gen_adapters(rng, knobs=None):
         sp = spec(rng, big=rng.random() < 0.3)
         limit = rng.choice([1, 1, 2, 3, 5, None])
         if kind == 'rr':
-            prog.append(['rr', 'c', sp, {'mode': rng.choice(['immediate', 'immediate', 'empty', 'error']), 'resp': spec(rng, big=False)}])
+            prog.append(['rr', 'c', sp, {'mode': rng.choice(['immediate', 'immediate', 'empty', 'empty', 'error']), 'resp': spec(rng, big=False),
+                                        'as_future': rng.random() < 0.5}])       # (the delegate hands its observable over inside a future)
         elif kind == 'fnf':
             prog.append(['fnf', 'c', sp])
         elif kind == 'push':
